@@ -326,7 +326,12 @@ def nested_mode_contexts(check, P, rule="R3"):
                             g = I_.heap[W.ref("g").addr]
                             g.fields["_distance_mode"] = Member("DistanceMode", start)
                             try:
-                                I_.heap[W.ref("state").addr].fields["_current_distance_mode"] = Member("DistanceMode", start)
+                                st = I_.heap[W.ref("state").addr]
+                                st.fields["_current_distance_mode"] = Member("DistanceMode", start)
+                                # between two commands the halt mode is OFF: the invariant the command runs of this check
+                                # (mode_switches / C01's main run) discharge inductively
+                                if "_current_halt_mode" in st.fields:
+                                    st.fields["_current_halt_mode"] = Member("HaltMode", "OFF")
                             except AnalysisError:
                                 pass
 
